@@ -17,7 +17,7 @@ CLAIMED = {
 }
 CLAIMED['C10'] = {
   'text': 'Defaults: the compile-time literal check of every IR primitive type (check of Int32/UInt32/Int64/UInt64, Float32/Float64, '
-          'String, Boolean, Bytes, Void, Nullable) is proved equal to the acceptance rule of the language reference, the constructors of the IR types are proved to establish the parameter invariants those checks and lemmas assume (min_value / max_value inside the range of the type, floats stored as doubles, lengths and item counts integral), and lemmas over these '
+          'String, Boolean, Bytes, Timestamp (strptime as axiom TS), Void, Nullable) is proved equal to the acceptance rule of the language reference, the constructors of the IR types are proved to establish the parameter invariants those checks and lemmas assume (min_value / max_value inside the range of the type, floats stored as doubles, lengths and item counts integral), and lemmas over these '
           'specifications and the (C08-proved) runtime validators show that an accepted literal is valid for the validator the '
           'python_types backend constructs for the type (Int, Float, String, Boolean proved for all parameters and literals; Bytes '
           'and Timestamp are listed known findings). Example computation is not under contract yet.',
@@ -110,7 +110,7 @@ CLAIMED['C18'] = {
 }
 CLAIMED['C03'] = {
   'text': 'Only spec errors escape, partly proved: for the literal-check layer of the IR (check and __init__ of Int32/UInt32/Int64/UInt64, '
-          'Float32/Float64, String, Boolean, Bytes, Void in stone/ir/data_types.py) the escape sets are proved (z3), as are those of Timestamp.__init__, List.__init__, Map.__init__, Nullable.check and List._check_list_container: nothing but the documented '
+          'Float32/Float64, String, Boolean, Bytes, Void in stone/ir/data_types.py) the escape sets are proved (z3), as are those of Timestamp.__init__ / check, List.__init__, Map.__init__, Nullable.check and List._check_list_container: nothing but the documented '
           'ValueError / ParameterError that the caller converts can leave them, for every argument of the closed-world universe. The lexer, '
           'the LALR parser and the passes of ir_generator.py are NOT proved (outside the VC generator): the postcondition of specs_to_ir taken '
           'from the statement (returns an API description or raises InvalidSpec with a non-empty message, an integer line and one of the '
@@ -190,7 +190,7 @@ CLAIMED['C02'] = {
 }
 CLAIMED['C01'] = {
   'text': 'Accepts exactly the legal specs, partly proved: for the literal-check layer of the IR primitive types (check of the '
-          'integer, float, string, boolean, bytes and void types, Nullable.check, List._check_list_container) acceptance is proved (z3) equal to the rule of the language reference -- a '
+          'integer, float, string, boolean, bytes, timestamp and void types, Nullable.check, List._check_list_container) acceptance is proved (z3) equal to the rule of the language reference -- a '
           'default or attribute literal is accepted iff it fits the declared type and its arguments -- and for the type-argument layer (__init__ of the integer and float types, String, Timestamp, List, Map) '
           'a constructor call is proved to succeed iff the arguments are legal (integers inside the range of the type, real bounds representable as doubles, non-negative lengths / item counts with max >= min, '
           'a compilable pattern, a String key type) and to raise ParameterError, which the caller turns into the spec error, otherwise. The rest of the rule set lives in the '
